@@ -156,6 +156,8 @@ func S[C ~chan T | ~chan<- T, T any](c C) Case {
 // ---------------------------------------------------------------- sim
 
 type Sim struct {
+	ctxSeq  int
+	openCtx map[int]openCtx
 	cfg     Config
 	gs      []*G
 	current *G
